@@ -107,6 +107,9 @@ fn extract<'tcx>(tcx: TyCtxt<'tcx>) -> J {
                 continue;
             }
             let ty = tcx.type_of(did).instantiate_identity().skip_norm_wip();
+            let ty = tcx
+                .try_normalize_erasing_regions(TypingEnv::fully_monomorphized(), rustc_middle::ty::Unnormalized::new_wip(ty))
+                .unwrap_or(ty);
             let v = match tcx.const_eval_poly(did) {
                 Ok(cv) => cx.const_value(cv, ty, 0),
                 Err(_) => J::obj(vec![("error", J::str("const eval failed"))]),
@@ -415,7 +418,9 @@ impl<'tcx> Cx<'tcx> {
                     fields.push(("origin", origin));
                     let v = match c.const_.eval(self.tcx, env, c.span) {
                         Ok(cv) => self.const_value(cv, ty, 0),
-                        Err(_) => J::obj(vec![("error", J::str("too generic or failed"))]),
+                        Err(_) => self.promoted_fallback(did, c).unwrap_or_else(|| {
+                            J::obj(vec![("error", J::str("too generic or failed"))])
+                        }),
                     };
                     fields.push(("value", v));
                 }
@@ -427,6 +432,50 @@ impl<'tcx> Cx<'tcx> {
                 ("what", J::str(format!("{:?}", rc))),
             ]),
         }
+    }
+
+    /// A promoted constant of a generic function cannot be evaluated with identity arguments.
+    /// The ones in this crate have the shape `_1 = const NAMED; _0 = &_1`: evaluate the named
+    /// (non-generic) constant instead; the JSON rendering looks through references anyway.
+    fn promoted_fallback(&self, did: DefId, c: &rustc_middle::mir::ConstOperand<'tcx>) -> Option<J> {
+        let tcx = self.tcx;
+        let Const::Unevaluated(u, _) = c.const_ else { return None };
+        let p = u.promoted?;
+        if u.def != did {
+            return None;
+        }
+        let pbody = &tcx.promoted_mir(did)[p];
+        let mut found: Option<J> = None;
+        for data in pbody.basic_blocks.iter() {
+            for st in data.statements.iter() {
+                if let StatementKind::Assign(b) = &st.kind {
+                    if let Rvalue::Use(Operand::Constant(c2), _) = &b.1 {
+                        let inner_ty = c2.const_.ty();
+                        if let Ok(cv) = c2.const_.eval(tcx, TypingEnv::fully_monomorphized(), c2.span) {
+                            found = Some(self.const_value(cv, inner_ty, 0));
+                        }
+                    }
+                    if let Rvalue::Aggregate(_, ops) = &b.1 {
+                        // arrays of named constants: `[A, B, C]`
+                        let mut items = Vec::new();
+                        let mut ok = true;
+                        for o in ops.iter() {
+                            if let Operand::Constant(c2) = o {
+                                if let Ok(cv) = c2.const_.eval(tcx, TypingEnv::fully_monomorphized(), c2.span) {
+                                    items.push(self.const_value(cv, c2.const_.ty(), 0));
+                                    continue;
+                                }
+                            }
+                            ok = false;
+                        }
+                        if ok && !items.is_empty() {
+                            found = Some(J::Arr(items));
+                        }
+                    }
+                }
+            }
+        }
+        found
     }
 
     fn fn_ref(&self, env: TypingEnv<'tcx>, fdid: DefId, args: ty::GenericArgsRef<'tcx>) -> J {
